@@ -457,6 +457,10 @@ def run(rep, tier):
     i1 = clause_i(f1, rep, ('::avx2::',))
     i3 = clause_i(f3, rep, ('::sse::',))
     rep.require(i1 >= 3 and i3 >= 3, 'C15.i: bit primitives found: avx2 %d, sse %d' % (i1, i3))
+    # the key comparator must order identically in every configuration: unsigned memcmp order on every path (shared with C14)
+    from . import c14
+    c14.clause_e(f1, rep, ('::avx2::',))
+    c14.clause_e(f3, rep, ('::sse::',), min_returns=1)
     h1 = clause_h(f1, rep)
     h3 = clause_h(f3, rep)
     rep.require(h1 >= 1 and h3 >= 1, 'C15.h: unsigned vector relational operators found: avx2 %d, sse %d' % (h1, h3))
